@@ -48,7 +48,9 @@ Step == /\ l <= Len(Tr) /\ l' = l + 1 /\ ev' = Tr[l] /\ obs' = Tr[l].post
                   wc == IF e.ev = "WriteOp" THEN e.c ELSE obs.wc[e.p]
                   wk == IF e.ev = "WriteOp" THEN Canon(e.x) ELSE Canon(obs.wx[e.p])
                   rdone == e.ev = "RemoveOp" \/ e.ev = "RUnmap" \/ (e.ev = "RUnlist" /\ o.rpc = "idle")
-                  cdone == e.ev \in {"CloseConn", "CloseOp"}
+                  \* a connection's close is complete when its watcher is through (gated traces: the watcher's last step)
+                  cdone == e.ev = "CloseOp" \/ (e.ev = "CloseConn" /\ o.kpc = "idle") \/ e.ev = "KUnmap" \/ (e.ev = "KUnlist" /\ o.kpc = "idle")
+                  cc == IF e.ev \in {"CloseOp", "CloseConn"} THEN e.c ELSE obs.kc
                   \* writes of other connections to the same source that are in progress when this one starts
                   overlap == e.ev = "WStart" /\ \E p \in DOMAIN obs.wpc : obs.wpc[p] # "idle" /\ Canon(obs.wx[p]) = Canon(e.x) /\ obs.wc[p] # e.c
                   \* a write that completes on a connection that is closed, gone, or the target of the removal in progress
@@ -58,18 +60,18 @@ Step == /\ l <= Len(Tr) /\ l' = l + 1 /\ ev' = Tr[l] /\ obs' = Tr[l].post
                  /\ ref' = CASE reset -> [k \in KeysOf(o) |-> 0]
                              [] wdone -> [ref EXCEPT ![wk] = wc]
                              [] rdone -> Drop(ref, Under(rlisted, e.u))
-                             [] cdone -> Drop(ref, {e.c})
+                             [] cdone -> Drop(ref, {cc})
                              [] e.ev = "CloseMux" -> [k \in DOMAIN ref |-> 0]
                              [] OTHER -> ref
                  /\ rlisted' = CASE reset -> Zero(o)
                                  [] e.ev = "GetConn" -> [rlisted EXCEPT ![e.f][e.u] = o.made]
                                  [] rdone -> [f \in DOMAIN rlisted |-> [rlisted[f] EXCEPT ![e.u] = 0]]
-                                 [] cdone -> [f \in DOMAIN rlisted |-> [u \in DOMAIN rlisted[f] |-> IF rlisted[f][u] = e.c THEN 0 ELSE rlisted[f][u]]]
+                                 [] cdone -> [f \in DOMAIN rlisted |-> [u \in DOMAIN rlisted[f] |-> IF rlisted[f][u] = cc THEN 0 ELSE rlisted[f][u]]]
                                  [] e.ev = "CloseMux" -> Zero(o)
                                  [] OTHER -> rlisted
                  /\ gone' = CASE reset -> {}
                               [] rdone -> gone \cup Under(rlisted, e.u)
-                              [] cdone -> gone \cup {e.c}
+                              [] cdone -> gone \cup {cc}
                               [] e.ev = "CloseMux" -> gone \cup UNION {Under(rlisted, u) : u \in UfragsOf(o)}
                               [] OTHER -> gone
 Spec == Init /\ [][Step]_vars
@@ -126,7 +128,7 @@ PerConnFifo == /\ \A c \in Conns : \A i \in 1..Len(obs.q[c]), j \in 1..Len(obs.q
 NoForeignUfrag == \A d \in Delivered : (d.n \in 1..Len(inj) /\ IsStun(inj[d.n].kind)
                                         /\ ~\E c \in Conns : <<c, Canon(d.src)>> \in started) => UOf(inj[d.n].kind) = obs.cu[d.c]
 \* after removal or close has returned (and nothing is in progress) the connection has no bindings and receives nothing
-Quiet(c) == obs.dpc = "idle" /\ obs.rpc = "idle" /\ \A w \in DOMAIN obs.wpc : obs.wpc[w] = "idle" \/ obs.wc[w] # c
+Quiet(c) == obs.dpc = "idle" /\ obs.rpc = "idle" /\ obs.kpc = "idle" /\ \A w \in DOMAIN obs.wpc : obs.wpc[w] = "idle" \/ obs.wc[w] # c
 GoneBindings == \A c \in gone : (Quiet(c) /\ ~obs.muxClosed) => \A k \in KeysOf(obs) : obs.amap[k] # c
 GoneDeliveries == \A d \in Delivered : d.c \notin gsnap
 ClosedEmpty == \A c \in Conns : obs.closed[c] => obs.q[c] = <<>>
